@@ -378,10 +378,26 @@ func (s *Server) sendResponseUnsafe(invokeID string, additionalHeaders map[strin
 
 func (s *Server) SendResponse(invokeID string, resp *interop.StreamableInvokeResponse) error {
 	s.setRuntimeState(runtimeInvokeResponseSent)
+	payload := resp.Payload
+	if !s.isDirectInvoke() {
+		// Buffer the body before taking the mutex: a runtime that stalls in the middle of its
+		// upload must not keep the reset of a timed out invoke (or anything else) from getting it.
+		data, err := io.ReadAll(resp.Payload)
+		if err != nil {
+			return fmt.Errorf("Failed to read response on %s: %s", invokeID, err)
+		}
+		payload = bytes.NewReader(data)
+	}
 	s.mutex.Lock()
 	defer s.mutex.Unlock()
 	runtimeCalledResponse := true
-	return s.sendResponseUnsafe(invokeID, resp.Headers, resp.Payload, resp.Trailers, resp.Request, runtimeCalledResponse)
+	return s.sendResponseUnsafe(invokeID, resp.Headers, payload, resp.Trailers, resp.Request, runtimeCalledResponse)
+}
+
+func (s *Server) isDirectInvoke() bool {
+	s.mutex.Lock()
+	defer s.mutex.Unlock()
+	return s.invokeCtx != nil && s.invokeCtx.Direct
 }
 
 func (s *Server) SendInitErrorResponse(resp *interop.ErrorInvokeResponse) error {
